@@ -9,6 +9,7 @@ structure AcceptedFacts (ip : IpOracle) (p : Parsed) (o : Opts) : Prop where
   scheme : p.scheme ∈ coapSchemes
   oscheme : o.scheme = p.scheme
   userinfo : hasUserinfo p.netloc = false
+  literal : literalOk p.netloc = true
   path : decodePath p.path = some o.path
   query : decodeQuery p.query = some o.query
   port : ∃ port, portOf p.netloc = some port
@@ -37,34 +38,37 @@ theorem fromParsed_ok_inv {ip : IpOracle} {p : Parsed} {o : Opts} (h : fromParse
           by_cases hu : hasUserinfo p.netloc = true
           · simp [hu] at h
           · simp only [hu, Bool.false_eq_true, ↓reduceIte] at h
-            cases hpath : decodePath p.path with
-            | none => simp [hpath] at h
-            | some path =>
-              cases hquery : decodeQuery p.query with
-              | none => simp [hpath, hquery] at h
-              | some query =>
-                simp only [hpath, hquery] at h
-                cases hport : portOf p.netloc with
-                | none => simp [hport] at h
-                | some port =>
-                  simp only [hport] at h
-                  cases hund : undecidedHostinfo ip p.netloc with
-                  | none => simp [hund] at h
-                  | some hostinfo =>
-                    simp only [hund] at h
-                    by_cases hlit : (p.netloc.head? == some 91 || ip4Looking hn) = true
-                    · rw [if_pos hlit] at h
-                      injection h with h; subst h
-                      exact ⟨hf, hc, rfl, by simpa using hu, hpath, hquery, ⟨port, hport⟩, hund, rfl,
-                        hn, hhn, Or.inl ⟨hlit, rfl⟩⟩
-                    · rw [if_neg hlit] at h
-                      cases hq : unquoteStrict hn with
-                      | none => simp [hq] at h
-                      | some hh =>
-                        simp only [hq] at h
+            by_cases hlo : literalOk p.netloc = true
+            · simp only [hlo, Bool.not_true, Bool.false_eq_true, ↓reduceIte] at h
+              cases hpath : decodePath p.path with
+              | none => simp [hpath] at h
+              | some path =>
+                cases hquery : decodeQuery p.query with
+                | none => simp [hpath, hquery] at h
+                | some query =>
+                  simp only [hpath, hquery] at h
+                  cases hport : portOf p.netloc with
+                  | none => simp [hport] at h
+                  | some port =>
+                    simp only [hport] at h
+                    cases hund : undecidedHostinfo ip p.netloc with
+                    | none => simp [hund] at h
+                    | some hostinfo =>
+                      simp only [hund] at h
+                      by_cases hlit : (p.netloc.head? == some 91 || ip4Looking hn) = true
+                      · rw [if_pos hlit] at h
                         injection h with h; subst h
-                        exact ⟨hf, hc, rfl, by simpa using hu, hpath, hquery, ⟨port, hport⟩, hund, rfl,
-                          hn, hhn, Or.inr ⟨by simpa using hlit, hh, hq, rfl⟩⟩
+                        exact ⟨hf, hc, rfl, by simpa using hu, hlo, hpath, hquery, ⟨port, hport⟩, hund,
+                          rfl, hn, hhn, Or.inl ⟨hlit, rfl⟩⟩
+                      · rw [if_neg hlit] at h
+                        cases hq : unquoteStrict hn with
+                        | none => simp [hq] at h
+                        | some hh =>
+                          simp only [hq] at h
+                          injection h with h; subst h
+                          exact ⟨hf, hc, rfl, by simpa using hu, hlo, hpath, hquery, ⟨port, hport⟩, hund,
+                            rfl, hn, hhn, Or.inr ⟨by simpa using hlit, hh, hq, rfl⟩⟩
+            · simp [hlo] at h
       · simp [hc] at h
   · simp [hf] at h
 
